@@ -53,7 +53,7 @@ pub enum End {
     Panic(PanicInfo),
 }
 
-#[derive(Clone, Debug, PartialEq, Eq, Hash, PartialOrd, Ord)]
+#[derive(Clone, Debug, PartialEq, Eq, Hash, PartialOrd, Ord, serde::Serialize, serde::Deserialize)]
 pub struct Answer {
     /// query terms with variables numbered canonically by first occurrence in the tuple
     pub terms: Vec<Term>,
@@ -253,6 +253,67 @@ pub fn run_until(p: &Program, mode: Mode, limits: Limits, stop: &mut dyn FnMut(&
         Guarded::Panic(p) => end = End::Panic(p),
     }
     Outcome { answers, meta: metas, end, steps, ctx, fused }
+}
+
+/// Build the query once and run the same `Query` object `times` times.
+pub fn run_same_query(p: &Program, mode: Mode, limits: Limits, times: usize) -> Vec<Outcome> {
+    let env = Env::new();
+    let mut outs = vec![];
+    let built = guarded(limits.budget, || {
+        let (qvars, goal) = assemble(p, mode, &env);
+        let query: Query<Raw, U, E> = Query::new(qvars, goal);
+        query
+    });
+    let query = match built {
+        Guarded::Ok(q) => q,
+        Guarded::Panic(pi) => {
+            return vec![Outcome { answers: vec![], meta: vec![], end: End::Panic(pi), steps: 0, ctx: Rc::new(RunCtx::default()), fused: true }];
+        }
+        Guarded::Budget(s) => {
+            return vec![Outcome { answers: vec![], meta: vec![], end: End::Budget(s), steps: 0, ctx: Rc::new(RunCtx::default()), fused: true }];
+        }
+    };
+    for _ in 0..times {
+        let ctx = Rc::new(RunCtx::default());
+        let mut answers = vec![];
+        let mut metas = vec![];
+        let mut end = End::Exhausted;
+        let mut fused = true;
+        let ctx2 = ctx.clone();
+        let r = guarded(limits.budget, || {
+            let mut it = query.run_with_user(VUser::default(), ctx2);
+            let mut n = 0;
+            loop {
+                if n >= limits.max_answers {
+                    end = End::Truncated;
+                    break;
+                }
+                match it.next() {
+                    Some(raw) => {
+                        let (a, m) = convert(&raw.0);
+                        answers.push(a);
+                        metas.push(m);
+                        n += 1;
+                    }
+                    None => {
+                        for _ in 0..3 {
+                            if it.next().is_some() {
+                                fused = false;
+                            }
+                        }
+                        break;
+                    }
+                }
+            }
+        });
+        match r {
+            Guarded::Ok(()) => {}
+            Guarded::Budget(s) => end = End::Budget(s),
+            Guarded::Panic(p) => end = End::Panic(p),
+        }
+        outs.push(Outcome { answers, meta: metas, end, steps: 0, ctx, fused });
+    }
+    outs
 }
 
 pub fn run_with(p: &Program, mode: Mode, limits: Limits, check_lifecycle: bool) -> Outcome {
